@@ -23,13 +23,16 @@ BUILD_TARGETS = ["DfolsVerif.Driver.InitDirsDrv"]   # what lean/InitDirsMain.lea
 DRIVER = "InitDirsMain.lean"
 THEOREMS = [
     "Dfols.C14.first_is_clamped_x0",
+    "Dfols.C14.coord_init_in_bounds",
+    "Dfols.C14.coord_init_count",
+    "Dfols.C14.coord_init_old_overshoots",
     "Dfols.C14.coord_init_points",
     "Dfols.C14.coord_init_pair_points",
-    "Dfols.C14.coord_init_in_bounds",
+    "Dfols.C14.npt_range",
     "Dfols.C14.coord_init_distance",
-    "Dfols.C14.coord_init_rel_in_box_any_rounding",
     "Dfols.C14.first_two_steps_distinct",
     "Dfols.C14.coord_init_affinely_independent",
+    "Dfols.C14.coord_init_affineIndependent",
     "Dfols.C14.coord_init_full_column_rank",
     "Dfols.C14.coord_init_needs_gap",
     "Dfols.C14.rand_dirs_count",
@@ -89,7 +92,7 @@ def nudge(x, k):
     return float(x)
 
 
-def gen_placement(rng, nmax=8, big_npt_share=0.3):
+def gen_placement(rng, nmax=8, big_npt_share=0.3, stress=False):
     """box with gap >= 2*rhobeg (as the solver tests it, in floating point), x0 drawn per coordinate from
     {interior, exactly on a bound, within 1e-12..1e-1*rhobeg of it, at the 1% threshold, outside}; one-sided bounds."""
     n = int(rng.integers(1, nmax + 1))
@@ -118,9 +121,14 @@ def gen_placement(rng, nmax=8, big_npt_share=0.3):
             lo, hi = -1e20, base
         elif kind == "free":
             lo, hi = -1e20, 1e20
-        # x0 placement
+        # x0 placement (stress: every coordinate bounded and next to a bound / at the 1% switch)
+        if stress and kind == "free":
+            kind, lo, hi = "two", base, base + gapf * rhobeg
+            if not (hi - lo >= 2.0 * rhobeg):
+                hi = nudge(hi, 2)
         sides = [s for s, ok in (("l", lo > -1e20), ("u", hi < 1e20)) if ok]
-        place = rng.choice(["interior", "on", "near", "thresh", "outside"]) if sides else "interior"
+        choices = ["thresh", "thresh", "thresh", "on", "near"] if stress else ["interior", "on", "near", "thresh", "outside"]
+        place = rng.choice(choices) if sides else "interior"
         side = rng.choice(sides) if sides else "-"
         inward = 1.0 if side == "l" else -1.0
         b = lo if side == "l" else hi
@@ -436,7 +444,7 @@ def check_init_case(dfols, case, rng, style):
     if cap["ncalls"] != npt or len(calls) < npt:
         bad.append(("C14:coord-init:count", "initialisation made %d evaluations, npt = %d" % (cap["ncalls"], npt)))
         return bad, "ran"
-    if P[0].tobytes() != (x0c + 0.0).tobytes() and not np.array_equal(P[0], x0c):
+    if not np.array_equal(P[0], x0c):
         bad.append(("C14:coord-init:first-not-clamped-x0", "first evaluation %s is not the projected x0 %s" % (P[0], x0c)))
     # bounds, exact
     for k in range(npt):
@@ -449,7 +457,7 @@ def check_init_case(dfols, case, rng, style):
             su = (xu - x0c)[j]
             sl = (xl - x0c)[j]
             c01 = (hi[j] and P[k][j] == x0c[j] + su) or (lo[j] and P[k][j] == x0c[j] + sl)
-            if c01 and ulps <= 2:
+            if c01:
                 bad.append(("C14:bounds-1ulp-overshoot(C01)", "point %d coordinate %d = %r is %.0f ulp outside the bound %r (xbase + (bound - xbase) rounding)" % (k, j, P[k][j], ulps, b)))
             else:
                 bad.append(("C14:coord-init:out-of-bounds", "point %d coordinate %d = %r outside [%r, %r]" % (k, j, P[k][j], xl[j], xu[j])))
@@ -519,6 +527,12 @@ def search(ctx):
     dfols = core.import_dfols()
     from dfols import util as U
     boost = getattr(ctx, "boost", 1)
+    if boost == 1 and any(b["name"].startswith("correspondence:") for b in ctx.broken):
+        boost = 5       # model and code disagree: enlarge the search even if a recorded finding is already in ctx.failures
+        ctx.notes.append("C14: enlarged failing-input search (x5) because a correspondence broke")
+    elif boost > 1 and getattr(ctx, "_c14_boosted", False):
+        return          # already ran enlarged
+    ctx._c14_boosted = boost > 1
     seen_sig = set(f.signature for f in ctx.failures)
 
     def report(sig, what, replay):
@@ -534,17 +548,25 @@ def search(ctx):
     worst_cond = 0.0
     for i in range(ncase):
         rng = np.random.default_rng([ctx.seed, 1411, boost, i])
-        case = gen_placement(rng, nmax=8, big_npt_share=0.25)
+        case = gen_placement(rng, nmax=8, big_npt_share=0.25, stress=(i % 5 == 4))
         try:
             bad, st = check_init_case(dfols, case, rng, i % 2)
         except core.Alarm:
             bad, st = None, "alarm"
+        except Exception as e:   # the real code raised during initialisation: the npt evaluations did not happen
+            bad, st = [("C14:coord-init:solve-raised:" + type(e).__name__, "dfols.solve raised %r" % (e,))], "raised"
         status[st] = status.get(st, 0) + 1
         ctx.seen(("c14search-init", i, case["n"], case["npt"], tuple(case["tags"])))
         worst_cond = max(worst_cond, case.get("_cond", 0.0))
         for sig, what in (bad or []):
-            report(sig, what, {"kind": "init", "seed": [ctx.seed, 1411, boost, i], "style": i % 2, "case": jsonable(case)})
+            report(sig, what, {"kind": "init", "seed": [ctx.seed, 1411, boost, i], "style": i % 2, "stress": bool(i % 5 == 4), "case": jsonable(case)})
     ctx.cov["search_init"] = {"runs": ncase, "status": status, "worst_cond_interpolation_matrix": worst_cond}
+
+    # the minimal documented call of the recorded finding, always exercised
+    D = U.random_orthog_directions_within_bounds(2, 1.0, np.array([0.0]), np.array([3.0]))
+    for sig, what in check_dirs(D, {"n": 1, "num": 2, "delta": 1.0, "lower": np.array([0.0]), "upper": np.array([3.0])}, "orthog-dirs"):
+        report(sig, what, {"kind": "gen-fixed", "call": "random_orthog_directions_within_bounds(2, 1.0, np.array([0.0]), np.array([3.0]))",
+                           "returned": D.tolist()})
 
     # generators, all active-set patterns
     ngen = ctx.scale(3000, 40000) * boost
@@ -565,18 +587,14 @@ def search(ctx):
         except AssertionError:
             ctx.count("search_gen_rejected_by_asserts")
             continue
+        except Exception as e:
+            bad = [("C14:%s:raised:%s" % ("rand-dirs" if which == 0 else "orthog-dirs", type(e).__name__), "generator raised %r" % (e,))]
         pats.add((c["n"], c["pattern"]))
         ctx.seen(("c14search-gen", i, which, c["n"], c["num"], c["pattern"]))
         for sig, what in bad:
             report(sig, what, {"kind": "gen", "which": which, "neg": bool(which == 1 or i % 2 == 0), "np_seed_from": [ctx.seed, 1412, boost, i],
                                "case": jsonable(c), "band": bool(i % 12 == 11)})
     ctx.cov["search_generators"] = {"calls": ngen, "distinct_(n,active-set pattern)": len(pats)}
-
-    # the minimal documented call of the recorded finding, always exercised
-    D = U.random_orthog_directions_within_bounds(2, 1.0, np.array([0.0]), np.array([3.0]))
-    for sig, what in check_dirs(D, {"n": 1, "num": 2, "delta": 1.0, "lower": np.array([0.0]), "upper": np.array([3.0])}, "orthog-dirs"):
-        report(sig, what, {"kind": "gen-fixed", "call": "random_orthog_directions_within_bounds(2, 1.0, np.array([0.0]), np.array([3.0]))",
-                           "returned": D.tolist()})
 
 
 def replay(payload):
@@ -587,8 +605,11 @@ def replay(payload):
     kind = rp.get("kind")
     if kind == "init":
         rng = np.random.default_rng(rp["seed"])
-        case = gen_placement(rng, nmax=8, big_npt_share=0.25)
-        bad, st = check_init_case(dfols, case, rng, rp["style"])
+        case = gen_placement(rng, nmax=8, big_npt_share=0.25, stress=rp.get("stress", False))
+        try:
+            bad, st = check_init_case(dfols, case, rng, rp["style"])
+        except Exception as e:
+            bad = [("C14:coord-init:solve-raised:" + type(e).__name__, "dfols.solve raised %r" % (e,))]
     elif kind == "gen":
         rng = np.random.default_rng(rp["np_seed_from"])
         c = gen_dir_case(rng, nmax=8, band=rp.get("band", False))
